@@ -14,6 +14,11 @@
                                                   (`/S` stands for the scratch directory the Go side creates)
     dirfilesrel <cwd> <dir> <kind> <prefix> <rels>             DirFiles called with the relative name <dir> of a directory
     hashdirrel <cwd> <dir> <kind> <prefix> <rels> <contents>   after chdir(<cwd>) (<cwd> = /S, /S/c19root, /S/c19root/sub ...)
+    dirfileslink <layout> <kind> <prefix> <rels>               DirFiles / HashDir called with a path that reaches the directory THROUGH A
+    hashdirlink <layout> <kind> <prefix> <rels> <contents>     SYMBOLIC LINK in an ancestor component (layouts `anc-…`, built by the Go side):
+                                                  the operating system resolves the link, the directory reached is the tree of the
+                                                  op, so the result is that of dirfiles / hashdir (the model has no links; layouts
+                                                  where the directory ITSELF is a link are not modelled: bad-op)
     hashzip <names> <contents>                    HashZip with Hash1 on the archive with these entries, in order
     hashmodzip <path> <version> <rels> <contents>   HashZip of zip.Create's archive for these files
     hashunzip <path> <version> <rels> <contents>    HashDir (prefix path@version) of the directory zip.Unzip extracts that archive to
@@ -96,6 +101,16 @@ def handle : Handler
       let cwd ← hx cwd; let dir ← hx dir; let pfx ← hx pfx; let rels ← hxList rels; let cs ← hxList cs
       let root ← parseRoot kind (rels.zip cs)
       pure (showRes (hashDirAt sha (relFs root cwd) dir pfx))
+  | "dirfileslink", [lay, kind, pfx, rels] => do
+      guard (lay.startsWith "anc-")
+      let pfx ← hx pfx; let rels ← hxList rels
+      let root ← parseRoot kind (rels.map fun r => (r, []))
+      pure (showResList (dirFiles root pfx))
+  | "hashdirlink", [lay, kind, pfx, rels, cs] => do
+      guard (lay.startsWith "anc-")
+      let pfx ← hx pfx; let rels ← hxList rels; let cs ← hxList cs
+      let root ← parseRoot kind (rels.zip cs)
+      pure (showRes (hashDir sha root pfx))
   | "hashzip", [ns, cs] => do
       let ns ← hxList ns; let cs ← hxList cs
       pure (showRes (hashZip sha (ns.zip cs)))
